@@ -93,7 +93,8 @@ struct dispatch_table < Fsm, Stt, Event, ::boost::msm::back::favor_compile_time>
         {
             HandledEnum res = HANDLED_FALSE;
             typename std::deque<cell>::const_iterator it = one_state.begin();
-            while (it != one_state.end() && (res != HANDLED_TRUE && res != HANDLED_DEFERRED ))
+            // res is a bit set: a submachine with several regions can return e.g. HANDLED_TRUE | HANDLED_GUARD_REJECT
+            while (it != one_state.end() && !(res & (HANDLED_TRUE | HANDLED_DEFERRED)))
             {
                 HandledEnum handled = (*it)(fsm,region,state,evt);
                 // reject is considered as erasing an error (HANDLED_FALSE)
